@@ -17,13 +17,28 @@ NPROC = 14
 CASE_TIMEOUT = 120
 CRITS = ["CYCLE_UNTIL_ALL_DATASETS_EXHAUSTED", "ALL_DATASETS_EXHAUSTED", "FIRST_DATASET_EXHAUSTED", "CYCLE_FOREVER"]
 COQ_CRIT = dict(zip(CRITS, ["CycleUntilAll", "AllExhausted", "FirstExhausted", "CycleForever"]))
-FUEL = 400
+FUEL = 2000
 SHARD = 40
 
 
 def gen_cases(rng, tier, drift):
-    n, nlong = (420, 6) if tier == "quick" and not drift else (6000, 150)
+    n, nlong, nres = (420, 12, 60) if tier == "quick" and not drift else (6000, 200, 900)
     cases = []
+    # resume-after-restart cases: a cycling criterion, uneven sources, a checkpoint taken after the short sources were
+    # exhausted and restarted (mid-way through a later pass), some more items, then a resume from that checkpoint
+    for _ in range(nres):
+        ns = rng.randint(2, 4)
+        lens = [rng.randint(1, 3)] + [rng.randint(2, 7) for _ in range(ns - 1)]
+        rng.shuffle(lens)
+        crit = rng.choice(["CYCLE_UNTIL_ALL_DATASETS_EXHAUSTED", "CYCLE_FOREVER", "CYCLE_FOREVER", "ALL_DATASETS_EXHAUSTED"])
+        ws = rng.choice([1, 2])
+        k = rng.randint(min(lens) + 1, 3 * max(lens) + 2)
+        j = rng.randint(1, 6)
+        ops = [["next"]] * k + [["state"]] + [["next"]] * j + [["load", 0]] + [["next"]] * (j + rng.randint(1, 5))
+        if rng.random() < 0.4:     # a second checkpoint taken from the resumed node, resumed again
+            ops += [["state"]] + [["next"]] * 3 + [["load", 1]] + [["next"]] * 5
+        cases.append(dict(lens=lens, crit=crit, weights=[round(rng.uniform(0.5, 3.0), 3) for _ in range(ns)], seed=rng.randint(0, 1000),
+                          rank=rng.randrange(ws), ws=ws, ops=ops))
     for i in range(n + nlong):
         long = i >= n
         ns = rng.randint(1, 4)
@@ -37,7 +52,9 @@ def gen_cases(rng, tier, drift):
         nsaved = 0
         steps = rng.randint(2, 7)
         if long:
-            ops += [["next"]] * rng.choice([995, 999, 1000, 1001])
+            # a checkpoint exactly at / next to the batch boundary of the choice stream (offset 1000), resumed
+            ops += [["next"]] * rng.choice([999, 1000, 1000, 1001, 2000]) + [["state"]] + [["next"]] * 4 + [["load", 0]] + [["next"]] * 8
+            nsaved += 1
         for _ in range(steps):
             r = rng.random()
             if r < 0.45:
@@ -136,24 +153,48 @@ def run_impl(c):
             if crit == "CYCLE_FOREVER":
                 fails.append("CYCLE_FOREVER raised StopIteration")
     partial = [False]     # True once the per-epoch bookkeeping was cut by a load (subsequences then start mid-epoch)
+    # resume oracle: what followed checkpoint j in the run that produced it (until that run was reset / replaced) must be
+    # what follows every later load of j
+    after = []            # after[j] = outcomes observed after state j, while `open_[j]`
+    open_ = []
+    expect = [None]       # [list of outcomes still to be matched after the latest load, j]
+
+    def outcome(o):
+        for j in range(len(after)):
+            if open_[j]:
+                after[j].append(o)
+        if expect[0] is not None:
+            want, j, pos = expect[0]
+            if pos < len(want):
+                if want[pos] != o:
+                    fails.append(f"resume from checkpoint {j}: outcome {pos} after the load is {o}, the uninterrupted run gave {want[pos]}")
+                    expect[0] = None
+                else:
+                    expect[0] = (want, j, pos + 1)
     for o in c["ops"]:
         if o[0] == "next":
             try:
                 x = next(node)
                 obs.append(["item", x // 100, x])
                 seen[x // 100].append(x)
+                outcome(["item", x])
             except StopIteration:
                 obs.append("stop")
                 check_epoch_end("stop")
+                outcome("stop")
         elif o[0] == "state":
             sd = node.state_dict()
             saved.append(sd)
             obs.append(["state", enc_state(sd)])
+            after.append([])
+            open_.append(True)
         elif o[0] == "load":
             check_epoch_end("cut")
             node = mk()
             node.reset(saved[o[1]])
             obs.append("load")
+            open_[:] = [False] * len(open_)
+            expect[0] = (list(after[o[1]]), o[1], 0)
             st = saved[o[1]]
             seen = {i: items_of(c, i)[:st["dataset_node_states"][n]["_num_yielded"]] for i, n in enumerate(names)}
             partial[0] = True
@@ -161,12 +202,20 @@ def run_impl(c):
             check_epoch_end("cut")
             node.reset()
             obs.append("reset")
+            open_[:] = [False] * len(open_)
+            expect[0] = None
             seen = {i: [] for i in range(len(names))}
             partial[0] = False
     # ---- the choices are the reference multinomial stream: replay it through a trivial interpreter
     # (done by the Coq model; here we only hand it the tables)
     max_epoch = 1 + sum(1 for o in c["ops"] if o[0] == "reset") + max([0] + [s["epoch"] for s in saved])
-    need = min(nb * 1000, 40 + sum(1 for o in c["ops"] if o[0] == "next") * 3 + 200)
+    # how much of the choice stream the model is handed: a next() skips draws of exhausted sources, and the end of an
+    # ALL_DATASETS_EXHAUSTED epoch is only noticed once every source has been drawn again - with a low-weight source that
+    # takes ~1/p draws each time, so the bound is per next() and in terms of the smallest selection probability
+    # (an exhausted table would make the MODEL spin until its fuel runs out: a false alarm, met once in the thorough tier)
+    p_min = min(c["weights"]) / sum(c["weights"])
+    per_next = max(3, int(12 / p_min) + 1)
+    need = min(nb * 1000, 240 + (sum(1 for o in c["ops"] if o[0] == "next") + 8) * per_next)
     tables = [stream(e)[0][:need] for e in range(max_epoch + 1)]
     # resume oracle: continuation after every load equals the uninterrupted one (checked via the model and per-source order above)
     kinds = [o[0] for o in c["ops"]]
